@@ -258,6 +258,12 @@ def gen_cases(tier):
 def scale_cases(deep):
     out = []
     maxn, maxm = (80, 48) if deep else (40, 24)
+    # several inline PRIMARY KEY columns (the statement's "ordered list of columns declared primary key inline"): every choice of 2 positions
+    # and a spread of 3 and 4 positions in tables of 12 / maxn columns
+    import itertools as _it
+    for n in (12, 24 if not deep else maxn):
+        for pos in list(_it.combinations(range(n), 2)) + [(a, a + 3, n - 1) for a in range(n - 4)] + [(0, a, a + 1, n - 1) for a in range(1, n - 2)]:
+            out.append({"fam": "S", "kind": "ipks", "n": n, "m": len(pos), "pos": list(pos)})
     for kind in ("pk", "pkn", "uq", "uqu", "fk", "fku", "ck", "inline", "mix"):
         for m in range(1, maxm + 1):
             for n in sorted({max(m + 1, 4), max(m + 1, 12), maxn}):
@@ -305,6 +311,10 @@ def scale_model(case):
         for j in range(m):
             E["checks"].append(("k%d" % j, "%s > %d" % (cn[(n - 1 - j) % n], j)))
             tl.append("CONSTRAINT k%d CHECK (%s > %d)" % (j, cn[(n - 1 - j) % n], j))
+    if kind == "ipks":
+        for j in case["pos"]:
+            inl[cn[j]] = " PRIMARY KEY"
+        E["pk"] = [cn[j] for j in case["pos"]]
     if kind == "inline":
         for j in range(min(m, n)):
             c = cn[n - 1 - j]
